@@ -10,7 +10,9 @@ def generate_t2(chk, pid, items, imports=('NoteSeqVerif.Common.Float',)):
     for it in items:
         try:
             for name, txt, ps in translit2.translate(it['fn'], it['module'], it['name'], it.get('params', {}),
-                                                     it.get('paths'), it.get('guards', ()), it.get('export')):
+                                                     it.get('paths'), it.get('guards', ()), it.get('export'),
+                                                     rounding=it.get('rounding', True), nested=it.get('nested'),
+                                                     vocab=it.get('vocab')):
                 defs.append('/-- symbolic execution of `%s.%s`%s -/\n%s' % (
                     it['module'].__name__, it['fn'].__name__,
                     '' if not it.get('export') else ' up to the first statement outside the arithmetic fragment: local `%s`' % name.split('_', 1)[-1],
